@@ -11,6 +11,7 @@ import Driver.ModDrv
 import Driver.OptDrv
 import Driver.DshbakDrv
 import Driver.SigDrv
+import Driver.PrintDrv
 
 /-- `pdshmodel <engine> <args...>`: one engine per model area; each reads protocol lines on stdin -/
 def main (args : List String) : IO UInt32 := do
@@ -28,4 +29,5 @@ def main (args : List String) : IO UInt32 := do
   | "opt" :: rest => Driver.OptDrv.main rest
   | "dshbak" :: rest => Driver.DshbakDrv.main rest
   | "sig" :: rest => Driver.SigDrv.main rest
+  | "print" :: rest => Driver.PrintDrv.main rest
   | _ => IO.eprintln "usage: pdshmodel <engine> ..."; return 2
